@@ -2,7 +2,7 @@
 (***************************************************************************)
 (* Case generation for C20 and the laws of the executable specification.   *)
 (*                                                                         *)
-(* The 26 option dimensions are the columns of an orthogonal array over    *)
+(* The 30 dimensions (Dims) are the columns of an orthogonal array over    *)
 (* Z_P (P prime >= number of columns): row (a, b, c) has in column j the   *)
 (* value a + j*b + j*j*c mod P, reduced modulo the number of values of the *)
 (* dimension.  With c = 0 (Strength = 2, P*P rows) every pair of values of *)
@@ -19,7 +19,7 @@ DimSet == {Dims[i] : i \in DOMAIN Dims}
 Idx(d) == (CHOOSE i \in DOMAIN Dims : Dims[i] = d) - 1
 Pick(s, x) == s[(x % Len(s)) + 1]
 Row(a, b, cc) == [d \in DimSet |-> Pick(Vals(d), (a + Idx(d) * b + Idx(d) * Idx(d) * cc) % P)]
-Repair(o) == LET o1 == IF o.first THEN [o EXCEPT !.peers = 0, !.urls = 0] ELSE o
+Repair(o) == LET o1 == IF o.first THEN [o EXCEPT !.peers = 0, !.urls = 0, !.multi = FALSE] ELSE o
              IN IF o1.local THEN [o1 EXCEPT !.urls = 0] ELSE o1
 CC == IF Strength = 3 THEN 0..(P - 1) ELSE {0}
 Rows  == {Row(a, b, cc) : a \in 0..(P - 1), b \in 0..(P - 1), cc \in CC}
@@ -30,7 +30,7 @@ SymC == [data_base |-> "/d", name |-> "antnode1", log_base |-> "/l", raddr |-> "
          rport |-> "13001", rec_rpc_port |-> "30001", mport |-> "14001", rec_mport |-> "30002",
          addrs |-> <<"/ip4/a", "/ip4/b">>, urls |-> <<"http://u1", "http://u2">>, cdir |-> "/c", netid |-> "7",
          ip |-> "10.1.2.3", nport |-> "12001", owner |-> "alice", march |-> "5", mlog |-> "7", rewards |-> "0xR",
-         evm_url |-> "http://rpc/", evm_pta |-> "0xP", evm_dpa |-> "0xD"]
+         evm_url |-> "http://rpc/", evm_pta |-> "0xP", evm_dpa |-> "0xD", listen |-> "40001"]
 
 VARIABLE c
 Init == c \in Cases
@@ -43,10 +43,13 @@ SpecCoherent == LET p == Pairs(Args(c, SymC))
                 IN /\ p.ok
                    /\ Accept(p.pairs)
                    /\ NodeInterp(p.pairs) = Intended(c, SymC)
+                   \* the arguments expected after an upgrade (pinned port) are interpreted as IntendedU
+                   /\ LET q == Pairs(PinToks([o |-> c, conc |-> SymC]) \o Args(c, SymC))
+                      IN q.ok /\ Accept(q.pairs) /\ NodeInterp(q.pairs) = IntendedU(c, SymC)
 
 \* the specified node CLI rejects what antctl's CLI rejects
 ASSUME RejectsNonInstallable ==
-    \A r \in {x \in {Row(a, b, 0) : a \in 0..(P - 1), b \in 0..(P - 1)} : ~Installable(x)} :
+    \A r \in {x \in {Row(a, b, 0) : a \in 0..(P - 1), b \in 0..(P - 1)} : ~PeersInstallable(x)} :
         ~Accept(Pairs(Args(r, SymC)).pairs)
 
 \* ---- every installable pair of option values occurs in some case
@@ -55,6 +58,8 @@ Conflict(d1, v1, d2, v2) ==
     \/ (d2 = "first" /\ v2 /\ d1 \in {"peers", "urls"} /\ v1 > 0)
     \/ (d1 = "local" /\ v1 /\ d2 = "urls" /\ v2 > 0)
     \/ (d2 = "local" /\ v2 /\ d1 = "urls" /\ v1 > 0)
+    \/ (d1 = "first" /\ v1 /\ d2 = "multi" /\ v2)
+    \/ (d2 = "first" /\ v2 /\ d1 = "multi" /\ v1)
 ASSUME PairwiseCovered ==
     \A i, j \in DOMAIN Dims : i < j =>
         \A vi \in DOMAIN Vals(Dims[i]), vj \in DOMAIN Vals(Dims[j]) :
